@@ -527,6 +527,20 @@ def extra_shared_config(ctx, rec):
                 rec.session([({"kind": "base", "i": 0, "k": 0}, other)], CONCS[0])
 
 
+def extra_att_fractional(ctx, rec):
+    """C12: window lengths that are not a whole number of seconds (1.5 s, 2.5 s ...) on half-second axes; time axis
+    and window length share the abstract unit, so the window rule (t - test_period, t] is judged exactly"""
+    g = gen_qc.Gen(ctx.seed + 97, size=8)
+    for rep in range(ctx.pick(150, 1500)):
+        c = subsecond_call(g, "att")
+        c["p"]["period"] = g.r.choice([1, 2, 3, 5, 7, 9])
+        c["p"]["st"] = [g.r.choice([1, 2, 3]), g.r.choice([1, 2])]
+        c["p"]["ft"] = [g.r.choice([0, 1, 2]), g.r.choice([1, 2])]
+        if g.r.random() < 0.3:
+            c["x"][g.r.randrange(len(c["x"]))] = gen_qc.NA
+        rec.session([({"kind": "base", "i": 0, "k": 0}, c)], dict(CONCS[0], tunit=0.5, pscale=True))
+
+
 def extra_big_offsets(ctx, rec):
     """C17: value offsets many orders of magnitude above the differences (exact in float64), where relative
     tolerances or reduced-precision round trips inside a rule would show"""
@@ -617,7 +631,7 @@ PLAN = {
     "C12": {"repo_fns": ["att"], "mc": T([M("att3", ["att"], ["shiftt"], 3, budget=16000)],
                     [M("att4", ["att"], ["shiftt", "shiftv"], 4, big=True, budget=150000)]),
             "random": {"fns": ["att"], "count": (400, 6000), "kinds": ["shiftv"], "size": (8, 24)},
-            "extra": [extra_repo_tests]},
+            "extra": [extra_repo_tests, extra_att_fractional]},
     "C13": {"repo_fns": ["dens", "press"], "mc": T([M("profile", ["dens", "press"], ["mirror"], 3, budget=16000)],
                     [M("profile", ["dens", "press"], ["mirror", "perturb"], 4, budget=150000)]),
             "random": {"fns": ["dens", "press"], "count": (500, 8000), "kinds": ["mirror", "shiftv"], "size": (10, 30)},
